@@ -70,16 +70,25 @@ func c17Admission(c *core.Ctx, r *core.Report, sm *summaries) {
 		ld, ok := sl.X.(*ssa.UnOp)
 		return ok && ld.X == ssa.Value(waiting)
 	}
-	holdsPop := func(f *ssa.Function) bool {
+	// the removal itself, or a call of a function of the package that makes it (two levels: the helper the loop
+	// calls may itself use a remove-at-index helper)
+	var holdsPopD func(f *ssa.Function, depth int) bool
+	holdsPopD = func(f *ssa.Function, depth int) bool {
 		for _, b := range f.Blocks {
 			for _, in := range b.Instrs {
 				if isPop(in) {
 					return true
 				}
+				if call, ok := in.(*ssa.Call); ok && depth < 2 {
+					if h := call.Call.StaticCallee(); samePkg(h) && h != f && holdsPopD(h, depth+1) {
+						return true
+					}
+				}
 			}
 		}
 		return false
 	}
+	holdsPop := func(f *ssa.Function) bool { return holdsPopD(f, 0) }
 	usesActive := func(f *ssa.Function) bool { return len(callsTo(f, active)) > 0 }
 	var takes []ssa.Instruction
 	var decisions []ssa.Value
